@@ -239,6 +239,7 @@ def _child_main() -> int:
     harness.setup_process()
     req = json.loads(sys.stdin.read())
     sc, seed = req["sc"], req["seed"]
+    sc = dict(sc, run_space=gen.decode_int_keys(sc["run_space"]))
     w = SimWorld(seed, lane="c09")
     try:
         _write_files(sc)
@@ -270,6 +271,9 @@ def execute(sc: dict, seed: int) -> dict:
         # runs BEFORE this process creates its world so that both use the same sandbox directory (file URIs enter the ids)
         other = _other_process(sc, seed, sc["hashseed"])
         stats["probe.other_process_other_hashseed"] = 1
+    if "__ik__" in json.dumps(sc["run_space"]):
+        stats["probe.int_keyed_mapping_value"] = 1
+    sc = dict(sc, run_space=gen.decode_int_keys(sc["run_space"]))      # after the fresh interpreter got the JSON form
     w = SimWorld(seed, lane="c09")
     try:
         if other is not None and other.get("sandbox") != w.sandbox:
@@ -364,7 +368,7 @@ def execute(sc: dict, seed: int) -> dict:
             c = dict(ctx0)
             c.update(plan[i])
             want_ctx.append(c)
-        if [_canon(c) for c in seen_ctx] != [_canon(c) for c in want_ctx]:
+        if [_canon(c) for c in seen_ctx] != [_canon(_logged(c)) for c in want_ctx]:
             viols.append(oracles.V("plan_order", f"executed_contexts:{fk}", f"{where}; executed {seen_ctx} planned prefix {want_ctx}"))
         # "every pipeline_start carries the launch id, attempt, its 0-based index and its context"
         launch_id = rs_start[0].get("run_space_launch_id") if rs_start else None
@@ -376,7 +380,7 @@ def execute(sc: dict, seed: int) -> dict:
                 viols.append(oracles.V("fk", "attempt", f"{where}; pipeline_start {i} attempt {st.get('run_space_attempt')}"))
             if st.get("run_space_index") != i:
                 viols.append(oracles.V("fk", "index_not_0_based_position", f"{where}; pipeline_start {i} run_space_index={st.get('run_space_index')}"))
-            if exp_ctx is not None and _canon(st.get("run_space_context")) != _canon(exp_ctx):
+            if exp_ctx is not None and _canon(st.get("run_space_context")) != _canon(_as_json(exp_ctx)):
                 viols.append(oracles.V("fk", "context", f"{where}; pipeline_start {i} run_space_context={st.get('run_space_context')} planned {exp_ctx}"))
         if rs_start and rs_start[0].get("run_space_attempt") != sc["attempt"]:
             viols.append(oracles.V("fk", "attempt_in_start", f"{where}; {rs_start[0].get('run_space_attempt')}"))
@@ -431,7 +435,7 @@ def execute(sc: dict, seed: int) -> dict:
             if spec_id is not None and sf.get("run_space_spec_id") != spec_id:
                 viols.append(oracles.V("spec_id", "differs_with_run_space_file_option", f"{where}; {spec_id} vs {sf.get('run_space_spec_id')}"))
             got = [_canon(ri["context"]) for ri in Lf["run_inputs"]]
-            if got != [_canon(c) for c in (want_ctx if fail_at is None else [dict(ctx0, **plan[i]) for i in range(n)])]:
+            if got != [_canon(_logged(c)) for c in (want_ctx if fail_at is None else [dict(ctx0, **plan[i]) for i in range(n)])]:
                 viols.append(oracles.V("plan_order", "run_space_file_option", f"{where}; executed contexts differ when the run space is given by file"))
         mrng = random.Random(sc["mut_seed"])
         L2 = _launch(sc, w, "cosmetic", _cosmetic(rs, mrng), opt=sc["launch_opt"])
@@ -544,6 +548,17 @@ def execute(sc: dict, seed: int) -> dict:
                 "sample": sample, "digest": w.digest()}
     finally:
         w.close()
+
+
+def _logged(ctx: dict) -> dict:
+    """A planned context in the form the world's run-input log stores it (non-string mapping keys are tagged with their type)."""
+    from ..world import _jsonable
+    return {k: _jsonable(v) for k, v in ctx.items()}
+
+
+def _as_json(ctx: dict):
+    """A planned context as a JSON trace record can carry it (JSON turns integer mapping keys into strings)."""
+    return json.loads(json.dumps(ctx))
 
 
 def _canon(c):
